@@ -69,6 +69,7 @@ class Run:
         self.seed = int(os.environ.get('VERIF_SEED', '0') or 0)
         self.cross_reference = []
         self.analysed = {}
+        self.incomplete = []       # sub-rules that could not be evaluated (label, reason)
 
     # ------------------------------------------------------------------ obligations
     def ob(self, rule, instance, ok, where=None, detail=None, key=None):
@@ -112,11 +113,28 @@ class Run:
     def note(self, msg):
         self.notes.append(msg)
 
+    def guard(self, label, fn, *args, **kw):
+        """run one sub-rule; if it cannot be evaluated (AnalysisBroken) remember that and carry on with the other sub-rules, so that a
+        part of the analysis that lost its anchor never hides what the remaining rules can still establish. finish() turns a remembered
+        failure into exit 2 unless a violation was found (then exit 1 with an ANALYSIS-INCOMPLETE line)."""
+        try:
+            return fn(*args, **kw)
+        except AnalysisBroken as e:
+            self.incomplete.append((label, str(e)))
+            return None
+
     def count(self, what, n=1):
         self.analysed[what] = self.analysed.get(what, 0) + n
 
     # ------------------------------------------------------------------ finish
     def finish(self):
+        if self.incomplete:
+            for label, why in self.incomplete:
+                self.note('analysis incomplete (%s): %s' % (label, why))
+            if not any(not o['ok'] for o in self.obligations):
+                raise AnalysisBroken('%s: %s' % self.incomplete[0])
+            print('ANALYSIS-INCOMPLETE property=%s (violations found by the rules that did run are reported): %s: %s' % ((self.pid,) + self.incomplete[0]))
+            self.floors = {}
         for rule, n in self.floors.items():
             got = self.rule_counts.get(rule, [0, 0])[0]
             if got < n:
